@@ -232,6 +232,24 @@ func buildHarness(race bool) string {
 	return bin
 }
 
+// pinBinary gives the caller its own name for a cached harness binary (a hard
+// link, or a copy if linking is not possible), so that cache pruning by a
+// concurrently running check cannot remove it while it is in use.
+func pinBinary(bin, dir string) string {
+	dst := filepath.Join(dir, fmt.Sprintf("pinned-%d-%s", time.Now().UnixNano(), filepath.Base(bin)))
+	if err := os.Link(bin, dst); err == nil {
+		return dst
+	}
+	b, err := os.ReadFile(bin)
+	if err != nil {
+		die(2, "harness binary vanished: %v", err)
+	}
+	if err := os.WriteFile(dst, b, 0o755); err != nil {
+		die(2, "cannot pin harness binary: %v", err)
+	}
+	return dst
+}
+
 func pruneCache(dir string, keep int) {
 	ents, err := os.ReadDir(dir)
 	if err != nil {
@@ -249,6 +267,9 @@ func pruneCache(dir string, keep int) {
 	}
 	sort.Slice(l, func(i, j int) bool { return l[i].t.After(l[j].t) })
 	for i := keep; i < len(l); i++ {
+		if time.Since(l[i].t) < 2*time.Hour && i < 4*keep {
+			continue // possibly in use by a concurrent check
+		}
 		os.RemoveAll(filepath.Join(dir, l[i].name))
 	}
 }
@@ -526,12 +547,12 @@ func cmdCheck(args []string) {
 		die(2, "tier must be quick or thorough")
 	}
 	start := time.Now()
-	bin := buildHarness(race)
 	tmp, err := os.MkdirTemp("/var/tmp", "verif-run-")
 	if err != nil {
 		die(2, "mktemp: %v", err)
 	}
 	defer os.RemoveAll(tmp)
+	bin := pinBinary(buildHarness(race), tmp)
 	props := listProps(bin, tmp)
 	p, ok := props[id]
 	if !ok {
@@ -599,7 +620,7 @@ func cmdCheck(args []string) {
 	// race-mode companion (the "no data race" clause): same workloads in a -race binary
 	raceBin := ""
 	if p.RaceCompanion != "" && runsOverride == 0 {
-		raceBin = buildHarness(true)
+		raceBin = pinBinary(buildHarness(true), tmp)
 		if cp, ok := listProps(raceBin, tmp)[p.RaceCompanion]; ok {
 			n := cp.QuickRuns
 			if tier == "thorough" {
@@ -846,7 +867,7 @@ func doReplay(bin, tmp, id, file string) int {
 	if f.Property != "" && f.Property != id {
 		// a replay file of one of the check's companions (race mode or not)
 		if pi, ok := listProps(bin, tmp)[f.Property]; ok && pi.RaceMode {
-			bin, isRace = buildHarness(true), true
+			bin, isRace = pinBinary(buildHarness(true), tmp), true
 		}
 		id = f.Property
 	}
